@@ -332,6 +332,17 @@ class MergeFlow(Engine):
         elif own == 'MSG':
             self.find_('MSG-READONLY', st, node, f'{self.describe(parent, st)}[{slice}] = ...', 'the message tree is modified')
 
+    def on_dict_store(self, st, node, dict=None, key=None, value=None):
+        """carried elements collected in a mapping keyed by something that need not be unique (tag, text): later
+        elements with an equal key silently replace earlier ones"""
+        if not self.in_merge(st):
+            return
+        if isinstance(value, Ref) and value.kind == 'elem' and st.get(value.sym).prov in ('MSG', 'COPY') and self.owner(value, st) in ('MSG', 'COPY'):
+            f = st.frame.func
+            if f is not None and f.cls is not None and f.cls.qualname in self.merge_family and isinstance(key, (StrV, Const)):
+                self.find_('PAYLOAD-ALL', st, node, f'mapping keyed by {self.describe(key, st)} holding {self.describe(value, st)}',
+                           'carried elements are collected in a mapping: two elements with the same key (e.g. two mosExternalMetadata blocks) collapse into one')
+
     def on_comp_skip(self, st, node, gen):
         """a comprehension filter rejects a carried (message / copied payload) element inside a merge"""
         if not self.in_merge(st):
@@ -488,6 +499,8 @@ class MergeFlow(Engine):
         if isinstance(id, NoneV) and mode == 'wildcard':
             self.find_('WILDCARD', st, node, cons,
                        'the ID operand may be None (blank or absent reference) and the lookup then selects the first child of that tag')
+        if result is not None and self.role[0] == 'MOVE' and tag == self.role[1]:
+            st.mon['movehits'] = min((st.mon.get('movehits') or 0) + 1, 3)
         if result is not None and self.role[0] == 'DELETE' and tag == self.role[1]:
             hits = dict(st.mon.get('sym:hits') or {})
             hits[result.sym] = (func, cons_key)
@@ -726,6 +739,9 @@ class MergeFlow(Engine):
             if used and (len(used) != 2 or len(set(used)) != 2):
                 self.find_at_merge('SWAP-EXCHANGE', f'{len(used)} item assignments through {len(set(used))} distinct positions',
                                    'a swap must assign each of the two looked-up positions exactly once (each element to the other\'s position)')
+        if kind == 'MOVE' and not s.mon.get('mutated') and (s.mon.get('movehits') or 0) >= 2:
+            self.find_at_merge('MOVE-ACTS', 'normal return without any edit although the target and at least one source were found',
+                               'a move whose references all resolve must move the named elements: this path returns the running order untouched, silently')
         if kind in ('MOVE', 'SWAP'):
             for descr, ops in sorted(lst.items()):
                 if 'mixed' in ops or ops.count('remove') != ops.count('insert'):
